@@ -276,6 +276,7 @@ class Evaluator:
             merged = dict(closure_env)
             merged.update(env)
             env = merged
+        bound0 = dict(env)
         sub = State(env, st.heap, st.guard, {})
         fr = Frame(fi, fi.module, fi.cls)
         self.frames.append(fr)
@@ -291,7 +292,7 @@ class Evaluator:
         if not top and isinstance(node, ast.Call) and len(self.frames) >= 1 and self.frames[-1].func is not None:
             # in-place writes into a parameter's array are writes into the caller's array
             for p_, expr in self._callee_arg_exprs(self.frames[-1].func, node):
-                if isinstance(expr, (ast.Name, ast.Attribute)) and p_ in sub.env and p_ in env and not (sub.env[p_] is env[p_]):
+                if isinstance(expr, (ast.Name, ast.Attribute)) and p_ in sub.env and p_ in bound0 and not (sub.env[p_] is bound0[p_]):
                     try:
                         self.rebind(expr, sub.env[p_], st)
                     except Exception:
@@ -1437,11 +1438,57 @@ class Evaluator:
         while isinstance(root, ast.Attribute):
             root = root.value
         if isinstance(root, ast.Name) and root.id not in st.env:
+            rb = self.prog.resolve_expr(fr.module, e.value, st.imports) if isinstance(e.value, (ast.Name, ast.Attribute)) else None
+            if rb is not None and rb[0] == 'class' and e.attr in self.class_constants(rb[2]):
+                return self.class_constants(rb[2])[e.attr]          # a class-level constant / enum member
             r = self.prog.resolve_expr(fr.module, e, st.imports)
             if r is not None:
                 return self.resolved_val(r, st)
         base = self.eval(e.value, st)
         return self.getattr_val(base, e.attr, st, e)
+
+    def class_constants(self, ci) -> Dict[str, Val]:
+        """class-level constants of a repository class: literal assignments, and the members of an enum.Flag / enum.Enum class (auto() numbered the way
+        the enum module does: powers of two for flags, 1, 2, 3, ... otherwise; members of a Flag class are `flag` values that support |, &, in, ==, truth)"""
+        memo = self.__dict__.setdefault('_class_consts', {})
+        if ci.qualname in memo:
+            return memo[ci.qualname]
+        out: Dict[str, Val] = {}
+        memo[ci.qualname] = out
+        bases = [ast.unparse(b) for b in ci.node.bases]
+        is_flag = any(b.split('.')[-1] in ('Flag', 'IntFlag') for b in bases)
+        is_enum = is_flag or any(b.split('.')[-1] in ('Enum', 'IntEnum', 'StrEnum') for b in bases)
+        last = 0
+        for stmt in ci.node.body:
+            if not (isinstance(stmt, ast.Assign) and len(stmt.targets) == 1 and isinstance(stmt.targets[0], ast.Name)):
+                continue
+            nm, ve = stmt.targets[0].id, stmt.value
+            val = None
+            if is_enum and isinstance(ve, ast.Call) and ast.unparse(ve.func).split('.')[-1] == 'auto' and not ve.args:
+                nxt = (1 if last == 0 else 1 << (int(last).bit_length())) if is_flag else last + 1
+                val = nxt
+            elif isinstance(ve, ast.Constant) and isinstance(ve.value, (int, str, bool)) or (isinstance(ve, ast.Constant) and ve.value is None):
+                val = ve.value
+            elif is_flag and isinstance(ve, ast.BinOp) and isinstance(ve.op, (ast.BitOr, ast.BitAnd)):
+                def fv(x):
+                    if isinstance(x, ast.Name) and x.id in out and isinstance(out[x.id], Term) and out[x.id].head == 'flag':
+                        return int(out[x.id].args[1].v)
+                    if isinstance(x, ast.BinOp) and isinstance(x.op, (ast.BitOr, ast.BitAnd)):
+                        a_, b_ = fv(x.left), fv(x.right)
+                        return None if a_ is None or b_ is None else (a_ | b_ if isinstance(x.op, ast.BitOr) else a_ & b_)
+                    return None
+                val = fv(ve)
+            if val is None and not (isinstance(ve, ast.Constant) and ve.value is None):
+                continue
+            if is_flag and isinstance(val, int) and not isinstance(val, bool):
+                out[nm] = Term('flag', (Const(ci.qualname), Const(int(val))), kind='flag')
+                last = max(last, int(val)) if (int(val) & (int(val) - 1)) == 0 else last
+            elif is_enum:
+                out[nm] = Term('enum', (Const(ci.qualname), Const(nm), Const(val)), kind='enum')
+                last = val if isinstance(val, int) else last
+            else:
+                out[nm] = Const(val)
+        return out
 
     def getattr_val(self, base: Val, attr: str, st, node) -> Val:
         if isinstance(base, Obj):
@@ -1462,6 +1509,9 @@ class Evaluator:
                 if m.is_classmethod:
                     return Fn('repo', m, self_val=base)      # bound to the class: `cls` is the class itself
                 return Fn('repo', m)
+            cv = self.class_constants(base.ref).get(attr)
+            if cv is not None:
+                return cv
             return Term('attr', (base, Const(attr)))
         if isinstance(base, Fn) and base.fkind == 'builtin' and base.ref == 'str' and attr == 'maketrans':
             return Fn('builtin', 'str.maketrans')
@@ -1685,6 +1735,9 @@ class Evaluator:
             return Term('strop', (a, b), kind='str')
         if isinstance(op, ast.Div) and isinstance(a, Term) and a.head.startswith('lib:importlib.resources.files'):
             return Term('pathjoin', (a, b), kind='path')
+        if isinstance(op, (ast.BitAnd, ast.BitOr)) and all(isinstance(x_, Term) and x_.head == 'flag' for x_ in (a, b)) and veq(a.args[0], b.args[0]):
+            v_ = (a.args[1].v | b.args[1].v) if isinstance(op, ast.BitOr) else (a.args[1].v & b.args[1].v)
+            return Term('flag', (a.args[0], Const(v_)), kind='flag')
         if isinstance(op, (ast.BitAnd, ast.BitOr)) and all(isinstance(x_, Term) and x_.head == 'mask' and x_.args for x_ in (a, b)):
             out = Term('mask', (P('and' if isinstance(op, ast.BitAnd) else 'or', a.args[0], b.args[0]),), kind='ndarray')
             return carry_mask(self, out, a, b, st=st, node=node)
@@ -1792,6 +1845,10 @@ class Evaluator:
             return Const(len(v.items) > 0)
         if isinstance(v, (Fn, Obj)):
             return TRUE
+        if isinstance(v, Term) and v.head == 'flag':
+            return Const(v.args[1].v != 0)
+        if isinstance(v, Term) and v.head == 'enum':
+            return TRUE
         if isinstance(v, Gam):
             a, b = self.truth(v.a, st, node), self.truth(v.b, st, node)
             if isinstance(a, Const) and isinstance(b, Const) and a.v == b.v:
@@ -1837,6 +1894,14 @@ class Evaluator:
                 return Const((a.v is b.v) != neg)
             p = P('is', a, b)
             return p_not(p) if neg else p
+        if all(isinstance(v_, Term) and v_.head in ('flag', 'enum') for v_ in (a, b)) and veq(a.args[0], b.args[0]):
+            fa, fb = a.args[-1].v if a.head == 'enum' else a.args[1].v, b.args[-1].v if b.head == 'enum' else b.args[1].v
+            if isinstance(op, (ast.In, ast.NotIn)) and a.head == 'flag':
+                return Const(((fb & fa) == fa) != isinstance(op, ast.NotIn))
+            if isinstance(op, (ast.Eq, ast.Is)):
+                return Const(veq(a, b))
+            if isinstance(op, (ast.NotEq, ast.IsNot)):
+                return Const(not veq(a, b))
         if isinstance(op, (ast.In, ast.NotIn)):
             neg = isinstance(op, ast.NotIn)
             if isinstance(a, Const) and isinstance(b, Tup) and all(isinstance(i, Const) for i in b.items):
@@ -2791,6 +2856,19 @@ def h_pad(ev, pos, kw, st, node):
     arr, pw = _arg(pos, kw, 0, 'array'), _arg(pos, kw, 1, 'pad_width')
     mode = _arg(pos, kw, 2, 'mode', Const('constant'))
     cv = kw.get('constant_values', Num(C(0)))
+    if arr is not None and isinstance(mode, Const) and mode.v == 'edge' and isinstance(pw, Tup) and len(pw.items) == 2 and not (set(kw) - {'array', 'pad_width', 'mode'}):
+        # mode='edge': the first element repeated in front, the last one behind
+        lo, hi = (ev.as_num(x_) for x_ in pw.items)
+        a_ = ev.as_num(arr, True) if not isinstance(arr, Num) else arr
+        if lo is None or hi is None or lo.length is not None or hi.length is not None or a_ is None or a_.length is None:
+            return None
+        parts = []
+        if not (lo.is_const() and lo.const() == 0):
+            parts.append(Num(a_.at(C(0)).r, lo.r, 'ndarray'))
+        parts.append(a_)
+        if not (hi.is_const() and hi.const() == 0):
+            parts.append(Num(a_.at(a_.length - C(1)).r, hi.r, 'ndarray'))
+        return mk_cat(parts) if len(parts) > 1 else a_
     if arr is None or not (isinstance(mode, Const) and mode.v == 'constant') or not isinstance(pw, Tup) or len(pw.items) != 2:
         return None
     if (set(kw) - {'array', 'pad_width', 'mode', 'constant_values'}) or isinstance(cv, Tup):
